@@ -430,6 +430,37 @@ def shrink(ops, still_fails, budget=1500):
     return ops
 
 
+def exit_code_violation(ctx, name, cases, impl, impl_env, rc, out, timeout):
+    """the implementation driver answered every case like the model and then ended with exit code rc:
+    bisect for one history that alone makes the driver end like that, report it (or the whole run)"""
+    sub, tail = list(cases), out[len(cases):]
+    runs = 0
+    while len(sub) > 1 and runs < 24:
+        half = sub[:len(sub) // 2]
+        rest = sub[len(sub) // 2:]
+        runs += 1
+        r, o = pv.run_lines(impl, half, timeout=timeout, env=impl_env)
+        if r != 0:
+            sub, tail = half, o[len(half):]
+            continue
+        runs += 1
+        r, o = pv.run_lines(impl, rest, timeout=timeout, env=impl_env)
+        if r != 0:
+            sub, tail = rest, o[len(rest):]
+            continue
+        break       # only the combination fails: report what is left
+    leak = any("LeakSanitizer" in l for l in tail)
+    obj = {"kind": "driver-exit-code", "engine": name, "rc": rc, "cases": sub[:20], "number_of_cases": len(sub),
+           "case": sub[0] if len(sub) == 1 else None, "report": tail[:60],
+           "witness": "%s :: exit rc=%d :: %s" % (name, rc, sub[0] if len(sub) == 1 else "%d histories" % len(sub)),
+           "impl_driver": impl}
+    ctx.violation("exit-" + name, obj, True,
+                  "the driver running the real MemoryPool answers every history like the model but ends with exit code %d%s; smallest input found: %s\n  %s"
+                  % (rc, " (LeakSanitizer: memory obtained through the pool's allocator is never released)" if leak else "",
+                     ("history `%s`" % sub[0][:600]) if len(sub) == 1 else "%d histories in one process" % len(sub),
+                     "\n  ".join(tail[:12])))
+
+
 def hist_correspondence(ctx, name, cases, impl, model, impl_env=None, timeout=900):
     """pv.correspondence for history lines, with the property monitor as the judge of a
     disagreement and with shrinking of the reported history."""
@@ -450,6 +481,10 @@ def hist_correspondence(ctx, name, cases, impl, model, impl_env=None, timeout=90
     bad = pv.diff_outputs(cases, o1, o2)
     cov["disagreements"] = cov.get("disagreements", 0) + len(bad)
     if not bad:
+        if rc1 != 0:
+            # every line agrees but the driver did not exit cleanly: LeakSanitizer reports at exit (rc 23 --
+            # "never leaks" is a clause of the property), or a crash in a destructor after the last case
+            exit_code_violation(ctx, name, cases, impl, impl_env, rc1, o1, timeout)
         return bad
 
     def run1(binary, ops, env=None):
@@ -510,6 +545,7 @@ def search_shift_failure(ctx, impl, why, regenerated_ok=True):
     calculate_shifts x != ceil(log2 x), in the regenerated definition and on the real code."""
     xs = [x for x in boundaries() if x > 0]
     rc, outs = pv.run_lines(impl, ["S %d" % x for x in xs])
+    outs = outs + ["<no output rc=%d>" % rc] * (len(xs) - len(outs))     # a driver that stops early fails at that x
     real_bad = []
     for x, o in zip(xs, outs):
         if o != "s %d" % ceil_log2(x):
@@ -657,6 +693,11 @@ def replay(ctx, obj):
     """Re-run one recorded case on the implementation (and the model when built)."""
     print(json.dumps({k: v for k, v in obj.items() if k not in ("build_log_tail",)}, indent=1)[:3000])
     case = obj.get("case")
+    if obj.get("kind") == "driver-exit-code" and obj.get("number_of_cases", 0) <= len(obj.get("cases") or []):
+        impl2 = pv.build_harness("asan", "pool_drv")
+        rc, o = pv.run_lines(impl2, obj["cases"], env={"ASAN_OPTIONS": "detect_leaks=1"})
+        print("pool_drv.asan on the recorded histories: exit code %d\n%s" % (rc, "\n".join(o[len(obj["cases"]):][:40])))
+        return 1 if rc != 0 else 0
     if not case:
         return 0
     if case.startswith("H "):
